@@ -146,7 +146,7 @@ func runProperty(id, tier string, start time.Time) (code int) {
 			os.Remove(f)
 		}
 	}
-	r := &Run{Prop: id, Tier: tier, Funcs: map[string]bool{}, Regions: map[string]int{}, Explain: def.Explain, NotDec: def.NotDec}
+	r := &Run{Prop: id, Tier: tier, Funcs: map[string]bool{}, Regions: map[string]int{}, Explain: def.Explain + commonExplain(def.ID), NotDec: def.NotDec}
 	var fatal string
 	func() {
 		defer func() {
